@@ -64,7 +64,7 @@ def catalogue(s):
             D.append({"k": "headpat", "n": nn})
             D.append({"k": "as_tank", "n": nn})
     for k in ("pdd", "mult2", "mult05", "pstart1h", "pstart90m", "hyd30", "hyd15all", "pat30", "pat2h", "rep2h",
-              "piecewise", "clock3h", "revorder", "interp", "defpat"):
+              "piecewise", "clock3h", "revorder", "interp", "defpat", "lateopts"):
         D.append({"k": k})
     return D
 
@@ -201,6 +201,9 @@ def apply(s, d):
         s["hw"] = "piecewise"
     elif k == "clock3h":
         o["clock"] = 3 * 3600
+    elif k == "lateopts":
+        # same model, other order of API calls: every option is assigned after patterns, elements and controls were added
+        s["late_options"] = True
     elif k == "defpat":
         # a pattern with the default pattern's name: every demand without a pattern of its own follows it
         s["patterns"] = dict(s["patterns"], **{"1": [0.7, 1.3, 1.0, 0.4]})
